@@ -16,6 +16,9 @@ Proof.
   destruct (h3_parse_settings_payload _); cbn [snd]; rewrite skipn_length; lia.
 Qed.
 
+Lemma settings_arm_rest body x : snd (h3_settings_arm body x) = snd x.
+Proof. destruct x as [[f|e] r]; [reflexivity|]. destruct e; reflexivity. Qed.
+
 Lemma parse_next_fuel_rest body : forall f input, (length (snd (h3_parse_next_fuel body f input)) <= length input)%nat.
 Proof.
   induction f as [|f IH]; intros input; cbn [h3_parse_next_fuel]; [cbn; lia|].
@@ -24,7 +27,7 @@ Proof.
   pose proof (vi_read_shorter _ _ _ R1). pose proof (vi_read_shorter _ _ _ R2).
   destruct (t =? h3FrameData); [cbn; lia|].
   destruct (t =? h3FrameHeaders); [cbn; lia|].
-  destruct (t =? h3FrameSettings); [pose proof (settings_frame_rest r2 l); lia|].
+  destruct (t =? h3FrameSettings); [rewrite settings_arm_rest; pose proof (settings_frame_rest r2 l); lia|].
   destruct (memN t h3ReservedTypes); [cbn; lia|].
   destruct (lenN r2 <? l); [cbn; lia|].
   specialize (IH (skipn (N.to_nat l) r2)). rewrite skipn_length in IH. lia.
